@@ -58,7 +58,8 @@ def momentRule (c : EstCls) : MomentRule :=
 def nuRule : Rule := if (paramsAssignedInFit .EG).contains "nu" then .current else .repaired
 
 /-- F5e: `CorrelationRemover.fit` reads `_n_features_in_` of an earlier fit -/
-def crRule : Rule := if (fitHistoryReads .CR).contains "_n_features_in_" then .current else .repaired
+def crRule : Rule :=
+  if (fitHistoryReads .CR).any (fun x => x.startsWith "_n_features_in_ ") then .current else .repaired
 
 def provOk (p : String) : Bool := p = "clone" || p.startsWith "ctor:"
 
